@@ -495,7 +495,8 @@ func runCase(c *kase, a *acc) {
 			a.fail("merge/not-equal/Merge", c, "e := New(shape); e.Merge(h); e.Equals(h)", nil, []bool{m1, m2}, "true")
 		}
 	}
-	if c.rt {
+	if c.rt && c.sym && !c.light && len(model) <= 2 {
+		// (small shapes only: these phases allocate three more histograms per case)
 		// Merge twice = every count doubled; Reset restores the empty histogram of the
 		// shape, and the reset histogram is fully usable again (same records -> Equal).
 		cur = "New"
@@ -542,7 +543,7 @@ func runCase(c *kase, a *acc) {
 				var want int64
 				tooMany := false
 				for _, r := range model {
-					if iv > 0 && r.V/iv > 4096 {
+					if iv > 0 && r.V/iv > 64 {
 						tooMany = true
 					}
 				}
